@@ -61,6 +61,11 @@ template <class F> static void for_touched_ranges(const Block* b, size_t limit, 
   Rng r; r.seed(b->id * 77 + 5);
   size_t pages = limit / PG;
   for (int k = 0; k < 6; k++) { size_t pg = 1 + (size_t)r.below(pages - 1); size_t s = pg * PG, e = s + PG; if (e > limit) e = limit; f(s, e); }
+  // and what lies at every 32 MiB boundary inside the block: later segments placed in this memory keep their header and slice table there
+  const uintptr_t SEGSZ = (uintptr_t)32 << 20;
+  for (uintptr_t a = ((uintptr_t)b->p + SEGSZ) & ~(SEGSZ - 1); a + PG < (uintptr_t)b->p + limit - PG; a += SEGSZ) {
+    size_t s = (size_t)(a - (uintptr_t)b->p), e = s + (128u << 10); if (e > limit - PG) e = limit - PG; if (e > s) f(s, e);
+  }
   f(limit - (limit % PG ? limit % PG : PG), limit);
 }
 
